@@ -586,6 +586,36 @@ func checkDecoderPanics(c *km.Ctx, s *km.Sem) {
 					if hi, isC := km.ConstInt(x.High); isC && st.All(func(kk km.Conj) bool { return lenAtLeast(kk, x.X, hi) }) {
 						guarded, how = true, "len guard"
 					}
+					// symbolic bound: len(base) >= E (or E <= len(base)) with E the same expression as the bound
+					if !guarded && x.Low == nil {
+						want := km.ValStr(x.High)
+						if st.All(func(kk km.Conj) bool {
+							for _, f := range kk.List() {
+								var lenSide, other ssa.Value
+								switch f.Op {
+								case token.GEQ, token.GTR:
+									lenSide, other = f.X, f.Y
+								case token.LEQ, token.LSS:
+									lenSide, other = f.Y, f.X
+								default:
+									continue
+								}
+								cl, ok := lenSide.(*ssa.Call)
+								if !ok || other == nil {
+									continue
+								}
+								if bi, ok := cl.Common().Value.(*ssa.Builtin); !ok || bi.Name() != "len" || !sameOperand(cl.Common().Args[0], x.X) {
+									continue
+								}
+								if km.ValStr(other) == want {
+									return true
+								}
+							}
+							return false
+						}) {
+							guarded, how = true, "len(base) >= the same bound expression"
+						}
+					}
 				}
 			case *ssa.Panic:
 				if cs, ok := km.ConstString(x.X); ok && cs == "blocking select matched no case" {
